@@ -123,12 +123,7 @@ func (a *Analyzer) binop(fr *frame, x *ssa.BinOp, st *State) Term {
 			return a.unknownOf(t, x.Name(), st)
 		}
 		if c > 0 && st.Cons.EntailsGE(xi.L) {
-			q := a.structAtom("div", c, t, desc, xi)
-			ql := AtomLin(q)
-			// c*q <= x <= c*q + c-1
-			st.AssumeGE(xi.L.Sub(ql.Scale(c)))
-			st.AssumeGE(ql.Scale(c).AddC(c - 1).Sub(xi.L))
-			return Int{ql}
+			return Int{a.divTerm(st, xi.L, c, t)}
 		}
 		return Int{AtomLin(a.structAtom("div", c, t, desc, xi))}
 	case token.REM:
@@ -148,6 +143,11 @@ func (a *Analyzer) binop(fr *frame, x *ssa.BinOp, st *State) Term {
 			c = -c
 		}
 		r := a.structAtom("rem", c, t, desc, xi)
+		if st.Cons.EntailsGE(xi.L) {
+			// x = c*(x/c) + x%c
+			q := a.divTerm(st, xi.L, c, t)
+			st.AssumeEQ(xi.L.Sub(q.Scale(c)).Sub(AtomLin(r)))
+		}
 		if isUnsigned(t) {
 			r.HasLo, r.Lo, r.HasHi, r.Hi = true, 0, true, c-1
 		} else {
@@ -239,6 +239,37 @@ func (a *Analyzer) cmpNonInt(x *ssa.BinOp, xv, yv Term, st *State) Term {
 		if (nx == nilIs && ny == nilNon) || (nx == nilNon && ny == nilIs) {
 			return mk(false)
 		}
+		// comparison of one opaque value with nil: the same value always gives the same answer
+		// (the decision taken at the first branch is remembered in State.BoolFacts)
+		if nx == nilIs || ny == nilIs {
+			other := xv
+			if nx == nilIs {
+				other = yv
+			}
+			oid := 0
+			switch o := other.(type) {
+			case *Unknown:
+				oid = o.ID
+			case *Ptr:
+				if o.Obj != nil && o.Path == "" && o.Elem == nil {
+					oid = o.Obj.ID
+				}
+			case *MapT:
+				oid = o.Obj.ID
+			}
+			if oid != 0 {
+				bid, ok := a.nilCmp[oid]
+				if !ok {
+					bid = a.id()
+					a.nilCmp[oid] = bid
+				}
+				b := &Bool{Kind: BUnknown, ID: bid, Src: "isnil"}
+				if neg {
+					return notB(b)
+				}
+				return b
+			}
+		}
 		// slices compared with nil: len==0 is implied by nil but not the converse
 		// strings: equal constant contents
 		if xs, ok := xv.(*Slice); ok && xs.IsStr {
@@ -328,4 +359,23 @@ func typeShort(t types.Type) string {
 		return "string"
 	}
 	return "[]byte"
+}
+
+
+// divTerm returns x / c (c > 0, x >= 0 in st) as a linear term: constant multiples of c are
+// split off (so (i+2)/2 is i/2+1) and the quotient atom q is tied to x by c*q <= x <= c*q+c-1.
+func (a *Analyzer) divTerm(st *State, x Lin, c int64, t types.Type) Lin {
+	m := floorDiv(x.C, c)
+	y := x.AddC(-m * c)
+	if m != 0 && !st.Cons.EntailsGE(y) {
+		m, y = 0, x
+	}
+	if y.IsConst() {
+		return Const(y.C/c + m)
+	}
+	q := a.structAtom("div", c, nil, fmt.Sprintf("(%s/%d)", y.String(), c), Int{y})
+	ql := AtomLin(q)
+	st.AssumeGE(y.Sub(ql.Scale(c)))
+	st.AssumeGE(ql.Scale(c).AddC(c - 1).Sub(y))
+	return ql.AddC(m)
 }
